@@ -115,7 +115,8 @@ def check_mutated(case):
     doc = _mutate(case["doc"], case["muts"])
     if doc is MU.INAPPLICABLE:
         return {"nontrivial": False, "labels": ["inapplicable"]}
-    want, reasons, got = compare(doc, "mutation %s" % (case["muts"],))
+    compare(case["doc"], "unmutated document")           # the valid document first, then its mutant (same process)
+    want, reasons, got = compare(doc, "mutation %s (checked right after the unmutated document)" % (case["muts"],))
     labs = ["schema=" + want] + ["%s/%s" % (r[0], MU.op_kind(case["muts"][-1]["op"])) for r in reasons[:2]]
     return {"nontrivial": want != "gray", "labels": labs, "gray": want == "gray"}
 
